@@ -360,7 +360,8 @@ int Session::on_log(htp_log_t *l) {
     return HTP_OK;
 }
 
-void Session::on_trace(int site, const void *a, long) {
+void Session::on_trace(int site, const void *a, long b) {
+    if (site == 1 && b != 0) site = 101; // the LF-CR branch taken for an LF that follows a CR: not the bare-LF heuristic the known finding F1 describes, never attributed
     r_.trace_hits[site]++;
     if (site >= 5 && site <= 9 && a) { int serial = serial_of((htp_tx_t *)a); mon_[serial].tflags |= 1u << site; }
 }
